@@ -68,12 +68,19 @@ ENCODINGS = [('utf-8', '', False), ('utf-8', '', True), ('latin-1', '# -*- codin
 NEWLINES = ['\n', '\r\n', '\r', 'mixed', 'nofinal']
 SHEBANGS = [None, '#!/usr/bin/env python', '#!/usr/bin/env python  \t', '#!/usr/bin/\u00e9nv python', '#!', '#! /bin/sh -x',
             # characters that str.splitlines() treats as line boundaries but the interpreter does not
-            '#!/bin/sh\x0cformfeed', '#!/bin/sh\x0bvtab', '#!/bin/sh\x1cfs\x1dgs\x1ers', '#!/bin/sh\x85nel', '#!/bin/sh\u2028ls\u2029ps']
+            '#!/bin/sh\x0cformfeed', '#!/bin/sh\x0bvtab', '#!/bin/sh\x1cfs\x1dgs\x1ers', '#!/bin/sh\x85nel', '#!/bin/sh\u2028ls\u2029ps',
+            # a shebang line that is itself the PEP 263 coding line (rendered without a separate cookie line, in the encoding it declares)
+            '#!/usr/bin/python # -*- coding: latin-1 -*-', '#!python coding=utf-8']
+SHEBANG_CODING = {'#!/usr/bin/python # -*- coding: latin-1 -*-': 'latin-1', '#!python coding=utf-8': 'utf-8'}
 
 
 def render(prog, enc, cookie, bom, nl, shebang):
     """returns (bytes, text) of the encoded source, or None when not encodable"""
     lines = []
+    if shebang in SHEBANG_CODING:
+        if cookie or bom or enc != 'utf-8':
+            return None         # only rendered once per (program, newline): the shebang line decides the encoding
+        enc = SHEBANG_CODING[shebang]
     if shebang is not None:
         lines.append(shebang)
     if cookie:
@@ -96,11 +103,11 @@ def render(prog, enc, cookie, bom, nl, shebang):
     return data, text
 
 
-def decode_like_interpreter(data):
+def decode_like_interpreter(data, errors='strict'):
     """PEP 263 (written here independently: tokenize.detect_encoding is stricter than the real parser about the first line)"""
     import re
     if data.startswith(codecs.BOM_UTF8):
-        return data[3:].decode('utf-8')
+        return data[3:].decode('utf-8', errors)
     enc = 'utf-8'
     lines = re.split(b'\r\n|\r|\n', data)[:2]
     for n, line in enumerate(lines):
@@ -110,7 +117,7 @@ def decode_like_interpreter(data):
             break
         if not re.match(br'^[ \t\f]*(?:#.*)?$', line):
             break
-    return data.decode(enc)
+    return data.decode(enc, errors)
 
 
 def first_line_content(text):
@@ -185,7 +192,12 @@ def violation_for(data, text, as_bytes, preserve, base_on, via_cli=None):
     try:
         decoded = decode_like_interpreter(data)
     except Exception:
-        decoded = text
+        # bytes that are not valid in the declared encoding (the interpreter does not validate comment lines, so such a source can still be
+        # accepted): no text can reproduce them exactly, the rule is stated on the replacement-character decoding of the first line
+        try:
+            decoded = decode_like_interpreter(data, 'replace')
+        except Exception:
+            decoded = text
     if decoded.startswith('\ufeff'):
         decoded = decoded[1:]
     first, _ = first_line_content(decoded)
@@ -198,10 +210,14 @@ def violation_for(data, text, as_bytes, preserve, base_on, via_cli=None):
         if out.startswith('#!'):
             return ('shebang-present', ctx + '\noutput %r' % out[:200]), 'accepted'
         body = out
-    # (1) same program
+    # (1) same program: the result *encoded as UTF-8* is what the interpreter will read (so a coding cookie that survives in the output counts)
     try:
-        tout = ast.parse(out)
-    except SyntaxError as e:
+        out_bytes = out.encode('utf-8')
+    except UnicodeEncodeError:
+        out_bytes = out         # lone surrogates in a literal: not encodable at all, compare the text
+    try:
+        tout = ast.parse(out_bytes)
+    except (SyntaxError, ValueError) as e:
         return ('output-unparseable', ctx + '\n%r\n%r' % (out[:300], e)), 'accepted'
     if not base_on:
         d = strict_ast.diff(ref_tree, tout)
@@ -211,20 +227,23 @@ def violation_for(data, text, as_bytes, preserve, base_on, via_cli=None):
             # the remainder after the shebang line must be the whole minified module on its own
             try:
                 d2 = strict_ast.diff(ref_tree, ast.parse(body))
-            except SyntaxError as e:
+            except (SyntaxError, ValueError) as e:
                 d2 = repr(e)
             if d2:
                 return ('shebang-swallowed-code', ctx + '\noutput %r\n%s' % (out[:300], d2)), 'accepted'
     else:
         a = observe.run(compile(data, '<src>', 'exec', dont_inherit=True))
-        b = observe.run(compile(out, '<out>', 'exec', dont_inherit=True))
+        b = observe.run(compile(out_bytes, '<out>', 'exec', dont_inherit=True))
         dd = observe.same(a, b)
         if dd:
             return ('behaviour-differs', ctx + '\noutput %r\n%s' % (out[:300], dd)), 'accepted'
     # (3) bytes and text agree
     if as_bytes and not via_cli:
         try:
-            t = decode_like_interpreter(data)
+            try:
+                t = decode_like_interpreter(data)
+            except (UnicodeDecodeError, LookupError):
+                return None, 'accepted'     # no text form of these bytes exists (undecodable bytes in a comment line): nothing to compare with
             if t.startswith('\ufeff'):
                 t = t[1:]
             try:
@@ -288,18 +307,22 @@ def one(res, key, data, text, as_bytes, preserve, base, via):
     res.count('class_' + cls)
     res.count('distinct_nontrivial')
     if v:
-        pi, ei, nl, si = key
-        sig = '%s|enc=%s nl=%s shebang=%s %s%s' % (v[0], ENCODINGS[ei][0] + ('+bom' if ENCODINGS[ei][2] else '') + ('+cookie' if ENCODINGS[ei][1] else ''), repr(nl),
-                                                 si, 'bytes' if as_bytes else 'str', ' cli' if via else '')
+        sig = signature(v[0], key, as_bytes, via)
         res.violation(sig, {'data': data.decode('latin-1'), 'text': text, 'as_bytes': as_bytes, 'preserve': preserve, 'default': bool(base), 'via': via, 'key': list(key)}, v[1])
+
+
+def signature(kind, key, as_bytes, via):
+    pi, ei, nl, si = key
+    if SHEBANGS[si] in SHEBANG_CODING:
+        # one signature per discrepancy kind: newline convention, input type and route do not matter for this shape
+        return '%s|shebang-line-is-coding-line:%s' % (kind, SHEBANG_CODING[SHEBANGS[si]])
+    return '%s|enc=%s nl=%s shebang=%s %s%s' % (kind, ENCODINGS[ei][0] + ('+bom' if ENCODINGS[ei][2] else '') + ('+cookie' if ENCODINGS[ei][1] else ''), repr(nl),
+                                              si, 'bytes' if as_bytes else 'str', ' cli' if via else '')
 
 
 def replay(case):
     data = case['data'].encode('latin-1')
     v, cls = violation_for(data, case['text'], case['as_bytes'], case['preserve'], pm.DEFAULT_ON if case['default'] else frozenset(), case['via'])
     if v:
-        pi, ei, nl, si = case['key']
-        sig = '%s|enc=%s nl=%s shebang=%s %s%s' % (v[0], ENCODINGS[ei][0] + ('+bom' if ENCODINGS[ei][2] else '') + ('+cookie' if ENCODINGS[ei][1] else ''), repr(nl),
-                                                 si, 'bytes' if case['as_bytes'] else 'str', ' cli' if case['via'] else '')
-        return {'signature': sig, 'detail': v[1]}
+        return {'signature': signature(v[0], case['key'], case['as_bytes'], case['via']), 'detail': v[1]}
     return None
